@@ -316,6 +316,18 @@ func c19Run(c *mon.Ctx, csAny any) {
 			continue
 		}
 
+		if ki%5 == 2 {
+			// untraced calls of other API functions between two traced multiplications (rejected decodes at every stage among
+			// them): what the process has seen since the reference trace was taken is not the scalar's business either
+			c.Count("unrelated-calls-between-traces")
+
+			nr := gen.New(c.Seed, fmt.Sprintf("C19/between/%s/%d", t.kh, ki))
+			if pan, pv := mon.Call(func() { mon.Noise(nr); mon.Noise(nr) }); pan {
+				c.Fail(fmt.Sprint("an unrelated API call made between two traced multiplications panicked: ", pv), "noise-panic", nil)
+				return
+			}
+		}
+
 		n, h, seq, pan, pv := c19Trace(cs.E.Build(), t.make())
 
 		if ki%4 == 0 && !pan && n == refN && h == refH {
